@@ -204,7 +204,7 @@ class record_dynamic:
             def f(r, token, *a, **k):
                 before, wb = me._snap(r), me._wtext(r)
                 cur = r.current_node
-                n0 = len(cur.children)
+                old = list(cur.children)
                 key = keyf(token, *a, **k)
                 depth = len(me.returned)
                 try:
@@ -216,22 +216,23 @@ class record_dynamic:
                     if key is not None:
                         me._note(r, key, [], before, wb, False)
                     raise
-                new = list(cur.children[n0:])
-                if meth == "render_myst_role" and len(me.returned) > depth:
-                    # O_role: the current node receives exactly what the role function returned (nodes + messages)
+                now = list(cur.children)
+                ok = r.current_node is cur
+                # the call may only append: what was there before is still there, in place
+                if [id(x) for x in now[:len(old)]] != [id(x) for x in old]:
+                    ok = False                      # the run placed nodes elsewhere itself ({header}, {footer} ...): outside the model
+                new = now[len(old):] if ok else []
+                if ok and meth in ("render_myst_role", "render_directive") and len(me.returned) > depth:
+                    # O_directive / O_role: the current node receives the list run_directive / the role function returned
+                    # exactly once, at its end; before it only what the run appended itself (its own warnings; other
+                    # nodes: outside the model)
                     ret = me.returned[depth]
-                    del me.returned[depth:]
-                    if [id(x) for x in new] != [id(x) for x in ret]:
-                        me.violations.append(("role", key))
-                if meth == "render_directive" and len(me.returned) > depth:
-                    # O_directive: what render_directive gives to the current node is what run_directive returned,
-                    # once, at the end (before it: only the warnings run_directive appended itself)
-                    ret = me.returned[depth]
-                    del me.returned[depth:]
                     head = new[:len(new) - len(ret)] if len(ret) <= len(new) else None
-                    if head is None or [id(x) for x in new[len(head):]] != [id(x) for x in ret] or \
-                            any(x.tagname != "system_message" for x in head):
-                        me.violations.append(("directive", key))
+                    if head is None or [id(x) for x in new[len(head):]] != [id(x) for x in ret]:
+                        me.violations.append((meth[7:], key))
+                    elif any(x.tagname != "system_message" for x in head):
+                        ok = False
+                del me.returned[depth:]
                 # "the oracle returns fresh nodes": every object of the result occurs once, under its parent
                 seen = set()
                 stack = [(cur, x) for x in new]
@@ -243,7 +244,7 @@ class record_dynamic:
                     seen.add(id(x))
                     stack.extend((x, c) for c in getattr(x, "children", ()))
                 if key is not None:
-                    me._note(r, key, new, before, wb, r.current_node is cur)
+                    me._note(r, key, new, before, wb, ok)
                 return res
             return f
 
